@@ -83,8 +83,8 @@ EXTERNAL = {
     "argparse.ArgumentError": ([], "constructor of the exception object"),
     "argparse.Namespace": ([], "constructor"),
     "argparse.Namespace.__init__": ([], "sets attributes"),
-    "argparse.ArgumentParser.exit/0": ([EXIT0], "ArgumentParser.exit() -> sys.exit(0)"),
-    "argparse.ArgumentParser.exit/1": ([EXIT2], "the only one-argument call in the package is self.exit(2) in ArgumentParser.error (checked by the translator)"),
+    "argparse.ArgumentParser.exit/0": ([EXIT0 + "!"], "ArgumentParser.exit() -> sys.exit(0); never returns"),
+    "argparse.ArgumentParser.exit/1": ([EXIT2 + "!"], "never returns; the only one-argument call in the package is self.exit(2) in ArgumentParser.error (checked by the translator)"),
     "argparse.ArgumentParser.print_usage": ([], "writes to the given stream"),
     "argparse.ArgumentParser._error_handler": ([], "deprecated error_handler hook: None unless the user sets one (not set in the harness)"),
     "argparse.ArgumentParser.format_help": ([], "help formatting is not modelled (DESIGN 11)"),
@@ -112,7 +112,7 @@ EXTERNAL_METHODS.update({
     "read": ([OS + "+", "builtins.UnicodeDecodeError"], "file read: OSError family, UnicodeDecodeError (a ValueError) for undecodable bytes, ValueError on a closed file"),
     "readlines": ([OS + "+", "builtins.UnicodeDecodeError"], "as read"),
     "match": ([], "compiled constant pattern"), "sub": ([], "compiled constant pattern"),
-    "exit/0": ([EXIT0], "parser.exit() -> SystemExit(0)"),
+    "exit/0": ([EXIT0 + "!"], "parser.exit() -> SystemExit(0); never returns"),
     "head": ([OS + "+"], "requests.head: RequestException derives from OSError"),
     "raise_for_status": ([OS + "+"], "requests HTTPError derives from OSError"),
     "model_dump": ([], "pydantic not modelled"), "dict": ([], "pydantic not modelled"),
